@@ -887,8 +887,8 @@ def run_cem(rep, quick):
     if quick:
         upd_cfgs = [
             dict(base, NPops={2}, Alphas=S("AlphasAll"), Fits=S("CFitInf")),
-            dict(base, NPops={3}, Alphas=S("AlphaDefault"), Fits=S("CFitInf")),
-            dict(base, NPops={4}, Alphas=S("AlphaDefault"), Fits=S("CFitThree")),
+            dict(base, NPops={3}, Alphas=S("AlphaDefault"), Fits=S("CFitInf"), Lattice="tiny"),
+            dict(base, NPops={4}, Alphas=S("AlphaDefault"), Fits=S("CFitThree"), Lattice="tiny"),
         ]
     else:
         upd_cfgs = [
